@@ -55,6 +55,7 @@ static buf_t buf_from_hex(const char* h) {
 static void buf_free(buf_t* b) {
     if (b->map) munmap(b->map, b->maplen); else free(b->p);
     b->p = NULL;
+    b->map = NULL;
 }
 
 #include "h_dump.h"
